@@ -15,7 +15,7 @@ RULE = ("Hypothesis-generated bridge programs in the C profile (primitives, enum
         "Distinct = distinct (program, method, call vector).")
 ASSUME = [
     "x86-64 SysV only; gcc 12 with AddressSanitizer and UBSan (leak detection off: borrowed return values are deliberately leaked by the harness bodies)",
-    "callbacks and traits are exercised for well-formedness only (C09); they are not part of the value round trip in this revision",
+    "callbacks: argument types are primitives, enums and structs, return types unit or primitive (what the generator draws); custom traits are exercised for well-formedness only (C09)",
     "opaque objects are created per call through Diplomat-exposed `dvnew(id)` / read through `dvid()` support methods added to every opaque type",
 ]
 
@@ -23,7 +23,7 @@ C_RET_PRIM = dict(e2e.C_PRIM)
 
 
 def profile():
-    return S.profile_for(["c"], callbacks=False, keywords=False, modules=1, max_types=6, max_methods=3, max_params=4, utf8strs=False)
+    return S.profile_for(["c"], callbacks=True, cb_rate=5, keywords=False, modules=1, max_types=6, max_methods=3, max_params=4, utf8strs=False)
 
 
 @st.composite
@@ -137,6 +137,7 @@ def evaluate(art, work, prog, plan, **kw):
                 break
         if len(logs) != len(exp_logs) and not any(f[0] == "argument" for f in fails):
             fails.append(("calls", "Rust logged %d invocations for %d calls" % (len(logs), len(exp_logs))))
+        fails += e2e.callback_fails(prog, plan, lines)
         for mid, cs in csize.items():
             if mid in rsize and rsize[mid] != cs:
                 fails.append(("layout", "method %s: C's result/option type has size %s, the type the proc macro returns has size %s" % (mid, cs, rsize[mid])))
@@ -177,6 +178,8 @@ def worker(widx, seed, params):
                         lab.append("write:fixed-buffer" + ("-overflow" if total > c["write"]["fixed"] - 1 else ""))
                     else:
                         lab.append("write:rust-owned")
+                for name_, inv in (c.get("cbs") or {}).items():
+                    lab.append("callback:%d-invocations" % min(len(inv), 2))
                 acc.case([ir.dumps(prog), p_["mid"], c], pnt and call_nonzero(c), lab, sample={"method": "%s::%s" % (p_["type"], p_["method"]), "call": c})
         for sig, msg in fails:
             sig2 = sig + "|" + re.sub(r"\d+", "N", msg.split("\n")[0])[:50]
